@@ -333,6 +333,9 @@ def build_direct(d):
         buf = np.array(rows, dtype).reshape(len(rows), ncols)
     else:
         buf = W.to_np(rows, d["dtype"])
+    if d.get("swapped") and buf.dtype.names is None and buf.dtype.itemsize > 1:
+        # the same values held in the other byte order (a big-endian file image, say): dtype '>i4' is a value too
+        buf = buf.astype(buf.dtype.newbyteorder())
     kw = {"extended_properties": mk_props(d["props"])}
     if kind != "S" and d.get("timing") is not None:
         kw["timing"] = mk_timing(d["timing"])
@@ -365,7 +368,7 @@ def twin_of(w):
     arr = w.data if k in "DS" else w.raw_data
     pad_shape = lambda n: (n,) + arr.shape[1:]
     junk = np.ones(pad_shape(2), arr.dtype) if arr.dtype.names is None else np.zeros(pad_shape(2), arr.dtype)
-    buf = np.concatenate([junk, np.array(arr), junk[:1]])
+    buf = np.concatenate([junk, np.array(arr), junk[:1]]).astype(arr.dtype)   # concatenate drops a non-native byte order
     kw = {"extended_properties": dict(w.extended_properties)}
     if k != "S":
         kw["timing"] = w.timing
@@ -455,6 +458,8 @@ def _mk_value(c):
         return vec
     if k == "xy":
         dt_ = W.np_dtype(c["dtype"])
+        if c.get("swapped") and np.dtype(dt_).itemsize > 1:
+            dt_ = np.dtype(dt_).newbyteorder()
         x = XYData(np.array(c["x"], dt_), np.array(c["y"], dt_), x_units=c["xu"], y_units=c["yu"], extended_properties=mk_props(c["p"]))
         return x
     raise AssertionError(k)
@@ -608,6 +613,8 @@ def _direct_desc(rng, kind=None):
     hi = 2 if dtype == "bool" else 8 if kind == "D" else 100
     d = {"kind": kind, "dtype": dtype, "vals": [[rng.randrange(hi) for _ in range(ncols)] for _ in range(n)], "ncols": ncols,
          "pre": rng.choice([0, 0, 1, 3]), "post": rng.choice([0, 0, 2]), "props": _props_desc(rng)}
+    if rng.random() < 0.12:
+        d["swapped"] = True
     if kind != "S" and rng.random() < 0.8:
         d["timing"] = _timing_desc(rng, n)
     if kind in "AC":
@@ -685,6 +692,8 @@ def gen_cases(rng, tier):
         dtype = rng.choice(["float64", "float32", "int8", "int16", "int32", "int64", "uint8", "uint16", "uint32", "uint64"])
         cases.append({"k": "xy", "dtype": dtype, "x": [rng.randrange(100) for _ in range(n)], "y": [rng.randrange(100) for _ in range(n)],
                       "xu": rng.choice(["", "s"]), "yu": rng.choice(["", "V"]), "p": [x for x in _props_desc(rng) if not x[0].startswith("NI_")], "m": meth()})
+        if rng.random() < 0.2:
+            cases[-1]["swapped"] = True
     return cases
 
 
